@@ -804,7 +804,7 @@ def _g18(ctx):
         except TypeError:
             raise pyconst.Raised()          # the real routine would stop with a TypeError here
     consts = {"compute_config_log": Native(lambda *a, **k: None), "float": Native(float), "mul": _op.mul,
-              "reduce": Native(_reduce)}
+              "reduce": Native(_reduce), "Signal": Native(lambda *a, **k: "sig")}
     EPS = 1e-9
 
     def close(a, b):
@@ -902,7 +902,43 @@ def _g18(ctx):
                 return f"output {i}: recorded frequency / phase {cfg.get(f'clk{i}_freq')!r} / {cfg.get(f'clk{i}_phase')!r}, recomputed {vco / cs[0]!r} / requested phase {p}"
         return None
 
-    single = [[(f, 0, m)] for f in (200e6, 100e6, 66e6, 37.5e6, 333e6, 123.4e6, 800e6, 50e6) for m in (0.0, 1e-2, 5e-2)]
+    def ecp5_solutions(me, reqs):
+        # model primitives keep a spare output, so a feedback path always exists (the routine adds an output for it)
+        for ci in range(*me["clki_div_range"]):
+            if not (me["pfd_freq_range"][0] <= me["clkin_freq"] / ci <= me["pfd_freq_range"][1]):
+                continue
+            for ofb in range(*me["clko_div_range"]):
+                for fb in range(*me["clkfb_div_range"]):
+                    vco = (me["clkin_freq"] / ci) * fb * ofb
+                    if me["vco_freq_range"][0] <= vco <= me["vco_freq_range"][1] and \
+                            all(any(abs(vco / d - f) <= f * m for d in range(*me["clko_div_range"])) for (f, p, m) in reqs):
+                        yield (ci, ofb, fb)
+
+    def ecp5_verify(me, reqs, cfg):
+        ci, fb, k = cfg.get("clki_div"), cfg.get("clkfb_div"), cfg.get("clkfb")
+        if ci not in range(*me["clki_div_range"]) or fb not in range(*me["clkfb_div_range"]):
+            return f"clki_div = {ci!r}, clkfb_div = {fb!r} outside the declared ranges"
+        if not within(me["clkin_freq"] / ci, *me["pfd_freq_range"]):
+            return f"phase detector frequency {me['clkin_freq'] / ci!r} Hz outside {me['pfd_freq_range']}"
+        ofb = cfg.get(f"clko{k}_div")
+        if ofb not in range(*me["clko_div_range"]):
+            return f"feedback output {k!r} has divider {ofb!r}, not a divider of clko_div_range {me['clko_div_range']}"
+        vco = (me["clkin_freq"] / ci) * fb * ofb
+        if not within(vco, *me["vco_freq_range"]):
+            return f"VCO {vco!r} Hz recomputed from clki_div {ci}, clkfb_div {fb} and the feedback output's divider {ofb} is outside {me['vco_freq_range']}"
+        if not close(cfg.get("vco"), vco):
+            return f"config['vco'] = {cfg.get('vco')!r}, recomputed from the feedback path {vco!r}: the loop locks elsewhere than the search assumed"
+        for n, (f, p, m) in enumerate(reqs):
+            d = cfg.get(f"clko{n}_div")
+            if d not in range(*me["clko_div_range"]):
+                return f"clko{n}_div = {d!r} outside clko_div_range"
+            if abs(vco / d - f) > f * m * (1 + 1e-9) + 1e-6:
+                return f"output {n}: {vco!r} / {d} = {vco / d!r} Hz misses the requested {f!r} Hz by more than the margin {m}"
+            if not close(cfg.get(f"clko{n}_freq"), vco / d) or cfg.get(f"clko{n}_phase") != p:
+                return f"output {n}: recorded frequency / phase {cfg.get(f'clko{n}_freq')!r} / {cfg.get(f'clko{n}_phase')!r}, recomputed {vco / d!r} / requested phase {p}"
+        return None
+
+    single = [[(f, 0, m)] for f in (200e6, 100e6, 66e6, 37.5e6, 333e6, 123.4e6, 800e6, 50e6, 105e6) for m in (0.0, 1e-2, 5e-2)]
     multi = [[(200e6, 0, 1e-2), (50e6, 90, 1e-2)], [(100e6, 0, 0.0), (200e6, 180, 0.0), (25e6, 0, 5e-2)], [(150e6, 0, 1e-2), (133e6, 0, 1e-2)],
              [(400e6, 0, 0.0), (100e6, 45, 0.0)], [(66e6, 0, 5e-2), (33e6, 0, 5e-2)]]
     models = [
@@ -911,6 +947,9 @@ def _g18(ctx):
           for ci in (100e6, 50e6) for vm in (0, 0.1) for extra in ({}, {"clkout0_divide_range": (2, 4, 0.125)})]),
         ("lattice_ice40.py", "iCE40PLL", ice_solutions, ice_verify, single,
          [dict(divr_range=(0, 3), divf_range=(0, 12), divq_range=(1, 5), vco_freq_range=(400e6, 800e6), clkin_freq=ci) for ci in (100e6, 48e6, 12e6)]),
+        ("lattice_ecp5.py", "ECP5PLL", ecp5_solutions, ecp5_verify, single + multi,
+         [dict(clki_div_range=(1, 4), clkfb_div_range=(1, 6), clko_div_range=(1, 9), vco_freq_range=(400e6, 800e6), pfd_freq_range=(30e6, 400e6), nclkouts_max=4,
+               dpa_en=False, clkin_freq=ci) for ci in (100e6, 50e6, 25e6)]),
         ("intel_common.py", "IntelClocking", intel_solutions, intel_verify, single + multi,
          [dict(n_div_range=(1, 4), m_div_range=(1, 10), c_div_range=(1, 9), vco_freq_range=(400e6, 800e6), clkin_pfd_freq_range=(20e6, 200e6), vco_margin=vm, clkin_freq=ci)
           for ci in (100e6, 50e6) for vm in (0, 0.1)]),
@@ -927,7 +966,8 @@ def _g18(ctx):
             for reqs in grid:
                 if cname == "iCE40PLL" and len(reqs) != 1:
                     continue
-                me = NS(clkouts={i: (f"clk{i}", f, p, mg) for i, (f, p, mg) in enumerate(reqs)}, nclkouts=len(reqs), logger=NS(), **attrs)
+                me = NS(clkouts={i: ((f"clk{i}", f, p, mg, False) if cname == "ECP5PLL" else (f"clk{i}", f, p, mg)) for i, (f, p, mg) in enumerate(reqs)},
+                        nclkouts=len(reqs), logger=NS(), **attrs)
                 what = f"model {cname} { {k: v for k, v in attrs.items()} }, requests {[(f, p, mg) for f, p, mg in reqs]}"
                 try:
                     r = pyconst.call(fn, {"self": me}, consts=consts, funcs=funcs)
@@ -1095,10 +1135,10 @@ def run(ctx):
     ctx.rule("G17", "Lattice NX oscillator: compute_divisor returns a divider of the declared range that meets the request within its "
                     "margin, and refuses exactly when none does (divider 0 included) -- by interpretation against a brute-force search", min_sites=3)
     _g17(ctx)
-    ctx.rule("G18", "search routines by value: compute_config of XilinxClocking (inherited by every Xilinx PLL / MMCM class), iCE40PLL and "
-                    "IntelClocking interpreted on model primitives with small ranges and compared with the checker's own enumeration of "
+    ctx.rule("G18", "search routines by value: compute_config of XilinxClocking (inherited by every Xilinx PLL / MMCM class), iCE40PLL, "
+                    "ECP5PLL and IntelClocking interpreted on model primitives with small ranges and compared with the checker's own enumeration of "
                     "the whole space: returned settings recomputed from their multipliers / dividers meet every request within its margin "
-                    "inside the ranges and the VCO window; refusal only when the enumeration is empty", min_sites=9)
+                    "inside the ranges and the VCO window; refusal only when the enumeration is empty", min_sites=12)
     _g18(ctx)
     ctx.rule("G19", "Gowin GW1N on-chip oscillator: for every part of the frozen device table the emitted FREQ_DIV, applied to that part's "
                     "oscillator frequency (210 MHz for the -4 family incl. GW1NRF-4B, 250 MHz otherwise), meets the request; refusal only "
